@@ -151,7 +151,7 @@ class Harness:
             box["exc"] = "%s: %s" % (type(e).__name__, e)
 
     def connection(self, script, app, peer=("127.0.0.1", 50000), mode="halfclose", segments=None,
-                   timeout=4.0, partial_read=0, read_delay=0.0, segment_delay=0.0):
+                   timeout=4.0, partial_read=0, read_delay=0.0, segment_delay=0.0, flood=None):
         """Run one client connection. script: bytes the client sends. Returns dict."""
         self.worker.wsgi = app
         self.worker.alive = True if getattr(self, "_keep_alive_flag", True) else self.worker.alive
@@ -177,6 +177,21 @@ class Harness:
                 pos += n
                 if segment_delay and pos < len(script):
                     time.sleep(segment_delay)       # the rest arrives noticeably later
+            flood_sent = 0
+            if flood:
+                # the client never stops: the same unit over and over until the server lets go of the connection (a send fails)
+                # or `limit` bytes have been taken
+                unit, limit = flood
+                block = unit * max(1, 65536 // len(unit))
+                csock.settimeout(2.0)
+                try:
+                    while flood_sent < limit:
+                        flood_sent += csock.send(block)
+                except socket.timeout:
+                    client_err = "flood-stalled"        # nobody reads and nobody closes
+                except OSError as e:
+                    client_err = "send:" + errno.errorcode.get(e.errno, str(e.errno))
+                csock.settimeout(timeout)
             if mode == "halfclose":
                 try:
                     csock.shutdown(socket.SHUT_WR)
@@ -255,7 +270,7 @@ class Harness:
         except Exception:
             closed = True
         text, nrec = self.capture.take()
-        return {"received": bytes(received), "eof": eof, "client_err": client_err,
+        return {"received": bytes(received), "eof": eof, "client_err": client_err, "flood_sent": flood_sent if flood else None,
                 "handler_exc": box["exc"], "hung": hung, "server_sock_closed": closed,
                 "access_text": text, "access_records": nrec}
 
